@@ -190,6 +190,42 @@ fn check_sequence(len: usize, word: u32, sigma: f64, acc: &mut Acc) {
     let replay = json!({"kind": "seq", "len": len, "word": word, "sigma": sigma});
     let bits: Vec<u8> = (0..len).map(|i| ((word >> i) & 1) as u8).collect();
     let arr = Array1::from_iter(bits.iter().map(|&b| gf2(b)));
+    // the same bit sequence presented as a reversed view (stride -1) and as a stride-2 view must
+    // modulate to the same symbols as the owned standard-layout array
+    {
+        use ndarray::s;
+        let rev = Array1::from_iter(bits.iter().rev().map(|&b| gf2(b)));
+        let wide = Array1::from_iter((0..2 * len).map(|i| if i % 2 == 0 { gf2(bits[i / 2]) } else { gf2(1 - bits[i / 2]) }));
+        let views = guard(|| {
+            let b0 = BpskModulator::new().modulate(&arr);
+            let b1 = BpskModulator::new().modulate(&rev.slice(s![..;-1]));
+            let b2 = BpskModulator::new().modulate(&wide.slice(s![..;2]));
+            let p = if len % 3 == 0 {
+                Some((Psk8Modulator::new().modulate(&arr), Psk8Modulator::new().modulate(&rev.slice(s![..;-1])), Psk8Modulator::new().modulate(&wide.slice(s![..;2]))))
+            } else {
+                None
+            };
+            (b0, b1, b2, p)
+        });
+        match views {
+            Err(e) => {
+                acc.violate(key.clone(), format!("modulate on a view panicked: {}", e), replay.clone());
+                return;
+            }
+            Ok((b0, b1, b2, p)) => {
+                if b0 != b1 || b0 != b2 {
+                    acc.violate(key.clone(), "BPSK: a reversed / strided view of the same bits modulates differently".into(), replay.clone());
+                    return;
+                }
+                if let Some((p0, p1, p2)) = p {
+                    if p0 != p1 || p0 != p2 {
+                        acc.violate(key.clone(), format!("8PSK: a reversed / strided view of the bits {:?} modulates to different symbols than the owned array", bits), replay.clone());
+                        return;
+                    }
+                }
+            }
+        }
+    }
     let r = guard(|| {
         let b = BpskDemodulator::from_noise_sigma(sigma).demodulate(&BpskModulator::new().modulate(&arr));
         let p = if len % 3 == 0 {
@@ -291,7 +327,7 @@ pub fn run(run: &Run) -> i32 {
         run,
         acc,
         Coverage {
-            rule: "sigma in {1e-3,0.05,0.3,0.7071,1,2.5,40,1e3} x 8PSK samples on a square grid over [-3,3]^2 plus constellation points, decision-boundary midpoints, boundary rays at radius 0.5 and 2, origin, a far point; BPSK samples on a 15-value list; every bit sequence up to the length bound (both modulations, three sigmas); the constellation table itself. Non-trivial = the reference log-ratio exceeds 100x the comparison tolerance in at least one bit (so the comparison is informative).".into(),
+            rule: "sigma in {1e-3,0.05,0.3,0.7071,1,2.5,40,1e3} x 8PSK samples on a square grid over [-3,3]^2 plus constellation points, decision-boundary midpoints, boundary rays at radius 0.5 and 2, origin, a far point; BPSK samples on a 15-value list; every bit sequence up to the length bound (both modulations, three sigmas; each also as a reversed and as a stride-2 array view); the constellation table itself. Non-trivial = the reference log-ratio exceeds 100x the comparison tolerance in at least one bit (so the comparison is informative).".into(),
             exhaustive: true,
             extra: serde_json::Map::new(),
             graph: None,
